@@ -1,34 +1,128 @@
-"""Per-property configuration used by ./check (text that goes into the evidence files)."""
+"""Per-property configuration used by ./check and tools/mkmanifest.py."""
 
 COMMON_TB = [
-    "Lean 4.33.0 kernel (lake build; leanchecker re-check in the thorough tier)",
-    "hand-written mirror model in /verif/lean/SF tied to /repo by differential correspondence (sfimpl vs sfmodel on the same op lines) and by regenerated facts (SF/Gen, sffacts)",
-    "Go compiler/runtime, reflect, unsafe: modelled, not verified",
+    "Lean 4.33.0 kernel (lake build; `leanchecker` re-check of the property module in the thorough tier)",
+    "hand-written mirror models in /verif/lean/SF (one Lean def per Go function) tied to /repo by differential "
+    "correspondence: sfimpl (the real code, in-process, build tag verif) and sfmodel (compiled Lean) on the same op lines",
+    "specification layer read by a human: SF/Event.lean (Val, WF, build), SF/Tree.lean, SF/*/Cst.lean",
+    "Go compiler/runtime, reflect, unsafe, io.Copy: modelled, not verified",
+]
+CODEC_ASSUME = [
+    "the mirror is the code only as far as the differential correspondence shows (sampling; distribution in this file)",
+    "CBOR instance proved; UBJSON and JSON instances of this property are decided by mirror + correspondence + oracle only "
+    "(their theorems are the listed `_partial` ones)",
 ]
 
+def P(design, technique, explanation, level_text, tb=None, assumptions=None, partial=None):
+    return dict(design=design, technique=technique, explanation=explanation, level_text=level_text,
+                trusted_base=COMMON_TB + (tb or []), assumptions=assumptions or CODEC_ASSUME, partial=partial or "")
+
 PROPS = {
-    "C20": dict(
-        trusted_base=COMMON_TB + ["model: SF/Gotype/Symbols.lean mirrors gotype/symbols.go (map + intrusive ring as two lists)"],
-        explanation="Theorems cache_transparent / get_returns_key / cache_bounded / get_refines_lru over the mirror of "
-                    "symbolCache: for every capacity (incl. <= 0) and every key history the cache returns exactly the key "
-                    "it was given, never panics, keeps map and ring consistent and refines a textbook LRU. Correspondence: "
-                    "op `lru` drives EnableKeyCache(n)+OnKeyRef on a real Unfolder, compares the ring order and map size "
-                    "after every key (hook VerifKeyCacheOrder) with the model, scribbles the source bytes of every key.",
-        assumptions=["Go map semantics; string(in) copies", "the unfolder passes keyCache.get(key) straight to OnKey (checked by the oracle on the unfolded map)"],
-    ),
-    "C05": dict(
-        trusted_base=COMMON_TB + [
-            "specification: SF/Cbor/Cst.lean (Item, wire, value, events, reference decoder) read against RFC 7049 section 2; appendix-A vectors as kernel-evaluated examples",
-            "model: SF/Cbor/Parse.lean mirrors cborl/parse.go function by function (after the fixes F01 F03 F05 F08 F09)"],
-        explanation="Theorem parse_supported: for every stream of well-formed items of the supported subset (any argument width, "
-                    "definite/indefinite nesting, all lengths) cborl.Parse on the wire bytes accepts, delivers exactly the specified "
-                    "events and ends idle; parse_supported_value: the events build the RFC value; refuse_*: tags, half floats, "
-                    "indefinite strings, non-text keys, negatives below -2^63, reserved codes yield errors and no event. "
-                    "Proof: mutual structural induction over items (SF/Proofs/CborRefine.lean), no bound on size or depth. "
-                    "Correspondence: op `parse cbor` on foreign-encoder style documents (non-minimal widths, indefinite containers, "
-                    "byte strings, undefined), all four entry points, random chunkings, every unsupported feature nested; "
-                    "oracle = the reference decoder of the specification on the same bytes.",
-        assumptions=["the mirror is the code only as far as the differential correspondence shows (sampling)",
-                     "RFC 7049 reading of DESIGN appendix A.4 (bytes as element-wise arrays, undefined as null)"],
-    ),
+ "C01": P("DESIGN.md 7 C01",
+   "Lean 4 proof (encoder and parser each refine the CBOR grammar; composition) + differential correspondence",
+   "cbor_roundtrip: for every contract-conforming event tree with in-range numbers the CBOR encoder's bytes are accepted by "
+   "the CBOR parser with events building the same value. Proof = enc_tree (encoder writes the wire form of an item) o "
+   "value_lemma (parser delivers the item's events), mutual structural induction, no size bound. Correspondence: op `rt` "
+   "(encode, then Parse) on renditions of random values x all kinds x boundary integers x all bytes as strings/keys x "
+   "float specials x JSON options; oracle: value of the parsed events = value of the stream up to the format's "
+   "documented representation changes (approxUbj / approxJson).",
+   "Kernel-checked round-trip theorem for CBOR over all well-formed streams; UBJSON/JSON by executable mirror, "
+   "correspondence and specification oracle."),
+ "C02": P("DESIGN.md 7 C02",
+   "Lean 4 proof (resumption law of the partial-token buffer) + differential correspondence over cut sets",
+   "collect_eq_spec / collect_resume_partial: the shared partial-token buffer of cborl and ubjson delivers the same token, "
+   "rest and buffer however the token's bytes are cut. Correspondence: op `chunk` = whole-buffer Parse vs Write-per-chunk "
+   "(+end) / ParseReader, all cut sets of short documents, every two-way cut and 1-byte chunking of longer ones, valid "
+   "and mutated, with stack-depth and buffer-length hooks after every chunk; oracle: events and verdict class equal.",
+   "Core lemma proved (partial); the composition over all parser states is decided by mirror + correspondence + oracle.",
+   partial="full chunk-independence theorem over all parser states not yet proved (target statement in Props/C02.lean)"),
+ "C03": P("DESIGN.md 7 C03",
+   "Lean 4 proof (no step indexes an empty slice, for all states/inputs/chunkings) + differential correspondence incl. exhaustive short inputs",
+   "parse_no_panic / writeChunks_no_panic / feedUntil_no_panic: the CBOR parser never panics on ANY bytes, ANY chunking, "
+   "from ANY state; collect_buffer_le: the buffer grows only by received bytes. Correspondence: outcome class "
+   "(ok/err/panic/hang) on exhaustive <=2-byte inputs (<=3 thorough), all prefixes, mutations, tampered lengths, pull "
+   "decoders; oracle: no panic/hang, truncated input (per the reference decoders) is an error, events proportional to input.",
+   "No-panic proved for CBOR for all inputs; termination bound, truncation clause and the other two parsers by mirror "
+   "(fuel-instrumented) + correspondence + oracle; wall-clock and heap are runtime facts (partial by nature).",
+   partial="hang-freedom (linear step bound) and truncation-is-error not yet proved; UBJSON payload-free counts are a known finding"),
+ "C04": P("DESIGN.md 7 C04",
+   "Lean 4 proof (integer-literal layer exact, never wraps) + differential correspondence + RFC 8259 reference decoder as oracle",
+   "int_literal_exact_partial / parseUint_exact: every integer literal is reported with exactly its value as int64/uint64 "
+   "or refused when outside [-2^63, 2^64). Correspondence: op `parse json` on foreign-producer texts; oracle: "
+   "SF/Json/Cst.lean (independent reference decoder, correctly rounded floats by exact rational arithmetic).",
+   "Integer layer proved (partial); strings/structure by mirror + correspondence + reference-decoder oracle.",
+   partial="unquote and the structural state machine not yet proved against the grammar"),
+ "C05": P("DESIGN.md 7 C05",
+   "Lean 4 proof (parser refines the RFC 7049-subset grammar, mutual structural induction) + differential correspondence",
+   "parse_supported: for every stream of well-formed items of the supported subset (any argument width, definite/"
+   "indefinite nesting, all lengths) cborl.Parse accepts, delivers exactly the specified events and ends idle; "
+   "parse_supported_value: the events build the RFC value; refuse_*: tags, half floats, indefinite strings, non-text keys, "
+   "negatives below -2^63, reserved codes yield errors and no event. Correspondence: op `parse cbor` on foreign-encoder "
+   "documents, all entry points, random chunkings, every unsupported feature nested; oracle = reference decoder.",
+   "Kernel-checked refinement of the grammar for every supported item (full).",
+   tb=["specification SF/Cbor/Cst.lean (Item, wire, value, events, reference decoder; decode o wire = id is proved: spec_roundtrip)"],
+   assumptions=["the mirror is the code only as far as the differential correspondence shows",
+                "RFC 7049 reading of DESIGN appendix A.4 (bytes as element-wise arrays, undefined as null)"]),
+ "C06": P("DESIGN.md 7 C06",
+   "Lean 4 proof (fixed-width integer layer) + differential correspondence + draft-12 reference decoder as oracle",
+   "int_roundtrip_partial: every integer of every fixed width is read back exactly as written over the whole range. "
+   "Correspondence: op `parse ubj` on foreign-encoder documents (all length markers, counted/typed containers nested, "
+   "payload-free types, no-ops); oracle: SF/Ubjson/Cst.lean.",
+   "Integer layer proved (partial); container state machine by mirror + correspondence + reference-decoder oracle.",
+   partial="container/header state machine not yet proved against the grammar"),
+ "C07": P("DESIGN.md 7 C07",
+   "Lean 4 proof (encoder output is the wire form of a well-formed item the reference decoder reads back) + differential correspondence",
+   "cbor_output_valid: for every well-formed stream the CBOR encoder's bytes are `wire` of an `ok` item with the stream's "
+   "value and `decode` reads it back completely (spec_roundtrip: decode o wire = id on the whole grammar). "
+   "Correspondence: op `enc` incl. all 29 extended events in 8 contexts, boundaries, every byte as string/key, JSON "
+   "options; oracle: reference decoders on the implementation's bytes.",
+   "Kernel-checked for CBOR against an independent grammar+decoder; UBJSON/JSON by mirror + correspondence + oracle."),
+ "C08": P("DESIGN.md 7 C08",
+   "Lean 4 proof (corollary of parser refinement, contract theorem and encoder refinement) + differential correspondence",
+   "cbor_to_cbor: parser events of any supported item in any spelling fed to the encoder give a valid document with the "
+   "same value. Correspondence: op `xcode` (Src.ParseReader(in, Dst.NewVisitor(out)) as in the README) for all 9 pairs, "
+   "single documents and streams, random chunkings; oracle: both documents decoded by the specifications.",
+   "Kernel-checked for CBOR->CBOR; the other eight pairs by composed mirrors + correspondence + oracle."),
+ "C09": P("DESIGN.md 7 C09",
+   "Lean 4 proof (contract automaton WF on event trees; CBOR parser; adapters) + WF monitor as oracle on every stream",
+   "tree_events_wf (generic), cbor_parser_wf (every accepted supported stream), expand_array_wf / expand_map_wf (all 29 "
+   "adapter expansions). Oracle: WF evaluated on every event stream any parser delivers.",
+   "Kernel-checked for the generic layer, the CBOR parser and the adapters; the other parsers and Fold by mirror/oracle.",
+   partial="Fold (gotype) and UBJSON/JSON parser instances not yet proved"),
+ "C10": P("DESIGN.md 7 C10",
+   "Lean 4 proof (native typed methods = expansion, same bytes and state; byte slices same value) + differential correspondence",
+   "cbor_ext_same: step s x = execEvs s x.expand for every typed array (except byte slices), typed map and by-reference "
+   "string at any position; cbor_bytes_same_value for byte slices. Correspondence: op `ext` (extended event vs its "
+   "expansion on two fresh encoders inside arbitrary contexts); oracle: same result class, same depth, both decode to "
+   "the stream's value.",
+   "Kernel-checked for the CBOR encoder; UBJSON/JSON by mirror + correspondence + oracle."),
+ "C16": P("DESIGN.md 7 C16",
+   "Lean 4 proof (success iff no Write failed, for every stream and fault index) + exhaustive fault-index correspondence",
+   "encoder_reports_write_errors: with a writer failing from its k-th call on, the CBOR encoder reports success iff no "
+   "Write failed, and the failing event is the one returning the error. Correspondence: ops `enc` (fault index "
+   "exhaustive for small streams) and `parse` (visitor failing at event k, k exhaustive); oracle: an error is reported "
+   "/ the injected error is returned and no further event delivered.",
+   "Kernel-checked for the CBOR encoder; parsers' visitor-fault direction and other encoders by mirror + correspondence.",
+   partial="parser/visitor-fault theorem and UBJSON/JSON encoders not yet proved"),
+ "C17": P("DESIGN.md 7 C17",
+   "Lean 4 proof (documents restore every stack; reuse = fresh by induction on histories) + differential correspondence with depth hooks",
+   "cbor_encoder_reuse / cbor_parser_reuse / cbor_parser_idle. Correspondence: ops `reuse-enc` / `reuse-parse` (histories "
+   "of 1..8 documents on one instance, probe compared with a fresh instance, depths at every boundary).",
+   "Kernel-checked for CBOR encoder and parser; other components by mirror + correspondence + oracle."),
+ "C18": P("DESIGN.md 7 C18",
+   "Lean 4 proof (byte-slice decoder: one value per Next then EOF) + differential correspondence over read scripts",
+   "bytes_decoder_stream / next_one / eof_not_clean. Correspondence: op `dec` (k documents, buffer sizes "
+   "{bytes,1,2,3,7,16,64,4096}, read sizes varying per call, (0,nil) reads, data with io.EOF, truncated streams); oracle: "
+   "ok x k then eof with exactly one value per Next; truncated => error.",
+   "Kernel-checked for the CBOR byte-slice decoder; reader decoders and other formats by mirror + correspondence.",
+   partial="reader-driven decoders with arbitrary read sizes not yet proved (needs C02)"),
+ "C20": P("DESIGN.md 7 C20",
+   "Lean 4 proof (invariant + refinement to LRU) over a mirror model; differential correspondence with a recency-order hook",
+   "cache_transparent / get_returns_key / cache_bounded / get_refines_lru over the mirror of symbolCache: for every "
+   "capacity (incl. <= 0) and every key history the cache returns exactly the key it was given, never panics, keeps map "
+   "and ring consistent and refines a textbook LRU. Correspondence: op `lru` drives EnableKeyCache(n)+OnKeyRef on a real "
+   "Unfolder, compares ring order and map size after every key (hook), scribbles the source bytes of every key.",
+   "Kernel-checked theorems over the mirror of gotype/symbols.go for every capacity and key history (full).",
+   tb=["model: SF/Gotype/Symbols.lean mirrors gotype/symbols.go (map + intrusive ring as two lists)"],
+   assumptions=["Go map semantics; string(in) copies", "the unfolder passes keyCache.get(key) straight to OnKey (checked by the oracle on the unfolded map)"]),
 }
